@@ -1,20 +1,28 @@
 /-
-C05 — Printed nodes, predicates, literals, triples, graphs parse back to equal values.  (partial)
+C05 — Printed nodes, predicates, literals, triples, graphs parse back to equal values.
 
 Model: BW/Model/Text.lean — the structure of the text forms (which characters separate the parts,
 where the parsers cut); the leaf codecs of the Go standard library (`%q` / strconv.Unquote,
-RFC3339Nano, `%v` of a float64 / ParseFloat) are parameters with the laws `LeafLaws`.
+RFC3339Nano, `%v` of a float64 / ParseFloat) are parameters with the laws `LeafLaws` / `LeafLaws2`
+(un-quoting undoes quoting; parsing a formatted time / float gives it back; formatted times, floats and
+quoted white-space-free IDs contain no quote resp. no white space).
 PROVED, for every value of the documented domain and every leaf codec satisfying the laws:
   * `node_round_trip`      — parse (print n) = n (type a '/'-path without '<', ID without '<' '>');
-  * `predicate_round_trip` — parse (print p) = p for every ID whatsoever (quotes, brackets,
-    backslashes, the separator itself: the parser cuts at the LAST `"@[`) and every anchor;
-  * `literal_round_trip_*` — bool, int64 (the full range, digit by digit), float64 (through the leaf
-    law), text (any bytes, the separator `"^^type:` included: cut at the LAST occurrence);
-  * `int64_text_round_trip` — the decimal printer/parser pair used for int64.
-NOT proved here (tied by the correspondence only): blobs, the triple-level split
-(`>\s+"`, `]\s+[/"]`) and the graph writer/reader composition; the leaf laws themselves (Go's
-standard library is trusted; every use is cross-checked through the oracle tables of the runs).
-Known finding D06: a text literal containing a line feed breaks the one-triple-per-line protocol.
+  * `predicate_round_trip` — for every ID whatsoever (quotes, brackets, backslashes, the separator
+    itself: the parser cuts at the LAST `"@[`) and every anchor;
+  * `literal_round_trip`   — bool, int64 (the full range, digit by digit), float64 (through the leaf
+    law), text (any bytes, the separator `"^^type:` included: cut at the LAST occurrence), blob (any
+    bytes, through the decimal byte list);
+  * `object_round_trip`    — nodes, literals and predicate-valued objects through `ParseObject`'s
+    node → literal → predicate cascade (a printed predicate is never mistaken for a literal);
+  * `triple_round_trip`    — subject, predicate, object separated by tabs and found again by the
+    `>\s+"` and `]\s+[/"]` splits, for IDs without white space (the documented domain);
+  * `graph_round_trip`     — `ReadIntoGraph (WriteGraph ts)` loads exactly `ts`, in order, reports
+    `|ts|` and no error — PROVIDED no printed triple contains a line feed (`LineOK.noLF`): this
+    hypothesis is exactly the known finding D06 (a text literal with a line feed), whose witness is
+    re-run on every check.
+ASSUMED: the leaf laws (Go's standard library is trusted; every use is cross-checked through the oracle
+tables of the correspondence runs).
 -/
 import BW.Proofs.Text
 
@@ -40,16 +48,113 @@ theorem literal_round_trip_float (L : Leaf) (hL : LeafLaws L) (bits : Nat) :
 theorem literal_round_trip_text (L : Leaf) (t : Bytes) : parseLit L (printLit L (.text t)) = some (.text t) :=
   parseLit_printLit_text L t
 
+theorem literal_round_trip_blob (L : Leaf) (bs : Bytes) : parseLit L (printLit L (.blob bs)) = some (.blob bs) :=
+  parseLit_printLit_blob L bs
+
+/-- Every literal whose int64 is an int64. -/
+theorem literal_round_trip (L : Leaf) (hL : LeafLaws L) (l : Lit) (h : LitOK l) : parseLit L (printLit L l) = some l :=
+  parseLit_printLit L hL l h
+
 theorem int64_text_round_trip (i : Int) (h : IsI64 i) : parseInt64 (fmtInt i) = some i :=
   parseInt64_fmtInt i h
+
+/-- Nodes, literals and predicates as objects: `ParseObject` gives back the same kind and value. -/
+theorem object_round_trip (L : Leaf) (hL : LeafLaws L) (o : Obj) (h : ObjOK o) : parseObject L (printObj L o) = some o :=
+  parseObject_printObj L hL o h
+
+/-- A whole triple. -/
+theorem triple_round_trip (L : Leaf) (hL : LeafLaws2 L) (t : Triple)
+    (hs : NodeOK t.s) (hsty : noSpace t.s.ty) (hsid : noSpace t.s.id) (hp : noSpace t.p.id) (ho : ObjOK t.o) :
+    parseTriple L (printTriple L t) = some t :=
+  parseTriple_printTriple L hL t hs hsty hsid hp ho
+
+/-- Writing a graph and reading the text back: the same triples, their number, no error. -/
+theorem graph_round_trip (L : Leaf) (ts : List Triple) (h : ∀ t ∈ ts, LineOK L t) :
+    readLines L (splitLines (writeLines L ts)) = (ts, ts.length, false) :=
+  read_write_round_trip L ts h
 
 /-- Printing again gives the same text (a consequence of the round trips: the parsed value IS the value). -/
 theorem predicate_print_stable (L : Leaf) (hL : LeafLaws L) (p : Pred) :
     (parsePred L (printPred L p)).map (printPred L) = some (printPred L p) := by
   rw [predicate_round_trip L hL p]; rfl
 
-/-! Non-vacuity: a leaf codec satisfying the laws on the values used (identity quoting of quote-free
-    ids is not a model of %q; the point is that the hypotheses are satisfiable), and concrete instances. -/
+theorem triple_print_stable (L : Leaf) (hL : LeafLaws2 L) (t : Triple)
+    (hs : NodeOK t.s) (hsty : noSpace t.s.ty) (hsid : noSpace t.s.id) (hp : noSpace t.p.id) (ho : ObjOK t.o) :
+    (parseTriple L (printTriple L t)).map (printTriple L) = some (printTriple L t) := by
+  rw [triple_round_trip L hL t hs hsty hsid hp ho]; rfl
+
+/-! Non-vacuity: the laws are satisfiable (a toy codec meets all of them), a concrete triple meets the
+    hypotheses of `triple_round_trip`, and concrete instances of the integer codec. -/
+
+/-- A (toy) leaf codec that satisfies every law: the hypotheses of the round-trip theorems are satisfiable. -/
+def encI (i : Int) : Nat := if i < 0 then 2 * i.natAbs - 1 else 2 * i.toNat
+def decI (n : Nat) : Int := if n % 2 = 1 then -(((n + 1) / 2 : Nat) : Int) else ((n / 2 : Nat) : Int)
+
+theorem decI_encI (i : Int) : decI (encI i) = i := by
+  unfold decI encI
+  by_cases h : i < 0
+  · simp only [h, if_true]
+    have : (2 * i.natAbs - 1) % 2 = 1 := by omega
+    simp only [this, if_true]
+    omega
+  · simp only [h, if_false]
+    have : (2 * i.toNat) % 2 = 0 := by omega
+    simp only [this]
+    omega
+
+def toyLeaf : Leaf where
+  quote := fun i => [dq] ++ i ++ [dq]
+  unquote := fun s => some ((s.drop 1).dropLast)
+  fmtTime := fun t => List.replicate (encI t.nanos) 49 ++ [48] ++ List.replicate (encI t.off) 49
+  parseTime := fun s => some ⟨decI (s.takeWhile (· == 49)).length, decI (s.drop ((s.takeWhile (· == 49)).length + 1)).length⟩
+  fmtFloat := fun b => List.replicate b 49
+  parseFloat := fun s => some s.length
+
+theorem takeWhile_replicate (n : Nat) (rest : Bytes) :
+    (List.replicate n (49 : UInt8) ++ 48 :: rest).takeWhile (· == 49) = List.replicate n 49 := by
+  induction n with
+  | zero => simp [List.takeWhile]
+  | succ n ih => simp [List.replicate_succ, List.takeWhile, ih]
+
+theorem toyLeaf_laws : LeafLaws2 toyLeaf where
+  unq_quote := by intro i; simp [toyLeaf]
+  quote_shape := by intro i; exact ⟨i, by simp [toyLeaf]⟩
+  time_round := by
+    intro t
+    simp only [toyLeaf]
+    have e : List.replicate (encI t.nanos) (49 : UInt8) ++ [48] ++ List.replicate (encI t.off) 49 =
+        List.replicate (encI t.nanos) 49 ++ 48 :: List.replicate (encI t.off) 49 := by simp
+    rw [e, takeWhile_replicate]
+    have hd : (List.replicate (encI t.nanos) (49 : UInt8) ++ 48 :: List.replicate (encI t.off) 49).drop
+        ((List.replicate (encI t.nanos) (49 : UInt8)).length + 1) = List.replicate (encI t.off) 49 := drop_mid _ _ _
+    rw [hd]
+    simp only [List.length_replicate, decI_encI]
+  time_noDq := by
+    intro t hm
+    simp only [toyLeaf, List.mem_append, List.mem_replicate, List.mem_singleton] at hm
+    rcases hm with (⟨_, h⟩ | h) | ⟨_, h⟩ <;> revert h <;> decide
+  time_nonempty := by intro t; simp [toyLeaf]
+  float_round := by intro b; simp [toyLeaf]
+  float_noDq := by
+    intro b hm
+    simp only [toyLeaf, List.mem_replicate] at hm
+    exact absurd hm.2 (by decide)
+  quote_noSpace := by
+    intro i hi c hc
+    simp only [toyLeaf, List.mem_append, List.mem_singleton] at hc
+    rcases hc with (rfl | hc) | rfl
+    · decide
+    · exact hi c hc
+    · decide
+  time_noSpace := by
+    intro t c hc
+    simp only [toyLeaf, List.mem_append, List.mem_replicate, List.mem_singleton] at hc
+    rcases hc with (⟨_, rfl⟩ | rfl) | ⟨_, rfl⟩ <;> decide
+
+def exTriple : Triple := ⟨⟨[47, 117], [97]⟩, .tmp [112, 34, 64, 91] ⟨5, 3600⟩, .lit (.text [32, 93, 32, 47])⟩
+example : parseTriple toyLeaf (printTriple toyLeaf exTriple) = some exTriple :=
+  triple_round_trip toyLeaf toyLeaf_laws exTriple ⟨by decide, by decide, by decide⟩ (by intro c hc; revert c; decide)
+    (by intro c hc; revert c; decide) (by intro c hc; revert c; decide) trivial
 example : parseNode (printNode ⟨[47, 117], [97, 32, 98]⟩) = some ⟨[47, 117], [97, 32, 98]⟩ := by decide
 example : parseInt64 (fmtInt (-9223372036854775808)) = some (-9223372036854775808) := by
   exact parseInt64_fmtInt _ (by constructor <;> decide)
@@ -63,5 +168,12 @@ end BW.Props.C05
 #print axioms BW.Props.C05.literal_round_trip_int
 #print axioms BW.Props.C05.literal_round_trip_float
 #print axioms BW.Props.C05.literal_round_trip_text
+#print axioms BW.Props.C05.literal_round_trip_blob
+#print axioms BW.Props.C05.literal_round_trip
 #print axioms BW.Props.C05.int64_text_round_trip
+#print axioms BW.Props.C05.object_round_trip
+#print axioms BW.Props.C05.triple_round_trip
+#print axioms BW.Props.C05.graph_round_trip
+#print axioms BW.Props.C05.triple_print_stable
 #print axioms BW.Props.C05.predicate_print_stable
+#print axioms BW.Props.C05.toyLeaf_laws
